@@ -12,7 +12,7 @@ from __future__ import annotations
 
 import itertools
 
-from .lang import B, C, I, N, O, S, Cls, Func, Prog, c3, seq
+from .lang import B, BOOL_METH, C, I, N, O, S, Cls, Func, Prog, c3, seq
 
 INT, STR, BOOL, NONE, OBJ = (I,), (S,), (B,), (N,), (O,)
 
@@ -182,6 +182,10 @@ class Gen:
                     ret = r.choice([NONE, INT, STR, BOOL, self.rand_ty(n)])
                 fd = Func(params, [], ret, None)
                 cd.methods.append((m, fd))
+            # a user-defined `__bool__` (method id 9): instances of the class may then be false
+            if r.random() < 0.3:
+                cd.methods.append((BOOL_METH, Func([], [], BOOL, None)))
+                self.stat("class-with-__bool__")
         # multiple inheritance must be compatible (mypy: check_multiple_inheritance + check_method_override against
         # every class of the MRO); where it is not, the second base is dropped
         for _ in range(n + 1):
@@ -221,8 +225,24 @@ class Gen:
                 cd.init_assigns.append((f, ("var", i) if i is not None else self.const_of(t, c)))
         for c, cd in enumerate(classes):
             for m, fd in cd.methods:
-                self.gen_body(fd, self_cls=c, callable_funcs=[], simple=True)
+                if m == BOOL_METH:
+                    fd.body = ("ret", self.bool_body(c))
+                else:
+                    self.gen_body(fd, self_cls=c, callable_funcs=[], simple=True)
         return classes
+
+    def bool_body(self, c):
+        """the value of `__bool__`: a bool expression over the attributes of `self` (or a constant)"""
+        r = self.r
+        me = ("var", 0)
+        opts = []
+        for f, t in self.h.all_attrs(c):
+            if t == BOOL:
+                opts += [("attr", me, f), ("not", ("attr", me, f))]
+            elif t == INT:
+                opts += [("lt", ("attr", me, f), ("intLit", r.choice([0, 1, 2]))), ("lt", ("intLit", r.choice([0, 1])), ("attr", me, f))]
+        opts.append(("boolLit", r.random() < 0.4))
+        return r.choice(opts)
 
     def override_ok(self, sub: Func, sup: Func) -> bool:
         return (len(sub.params) == len(sup.params) and all(self.h.sub_ty(b, a) for a, b in zip(sub.params, sup.params))
@@ -368,7 +388,8 @@ class Gen:
             return []
         res = None
         for a in t:
-            d = dict(self.h.all_meths(a[1]))
+            # no explicit `x.__bool__()` calls: CPython has that method on None / int / str as well
+            d = {m: fd for m, fd in self.h.all_meths(a[1]) if m != BOOL_METH}
             res = d if res is None else {k: v for k, v in res.items() if k in d}
         out = []
         for m in res:
@@ -505,6 +526,10 @@ class Gen:
                     return True
         return False
 
+    def truth_ok(self, x) -> bool:
+        return (not (self.self_cls is not None and x == 0) and self.loop_depth == 0 and not self.in_loop_guard
+                and x not in self.truth_tested)
+
     def narrow_cond(self, env):
         """(condition, env if true, env if false) for a random narrowable local, or None"""
         r = self.r
@@ -514,9 +539,11 @@ class Gen:
                 opts.append(("none", x))
                 # one truthiness test per local and function, outside loops (mypy keeps can_be_true/can_be_false
                 # flags on the narrowed type that a second test would observe)
-                if all(a == N or isinstance(a, tuple) for a in t) and not (self.self_cls is not None and x == 0) \
-                        and self.loop_depth == 0 and not self.in_loop_guard and x not in self.truth_tested:
+                if all(a == N or isinstance(a, tuple) for a in t) and self.truth_ok(x):
                     opts.append(("truth", x))
+            elif t and all(isinstance(a, tuple) and self.h.meth(a[1], BOOL_METH) is not None for a in t) and self.truth_ok(x):
+                # an instance of a class with `__bool__`: both branches keep the type
+                opts.append(("truth", x))
             if t == OBJ:
                 opts.append(("none", x))
             for a in t:
@@ -1054,7 +1081,7 @@ def all_bodies(p: Prog):
 
 
 PERTURBATIONS = ["drop-guard", "swap-lit", "widen-param", "swap-args", "ret-type", "attr-type", "none-arg", "drop-init",
-                 "narrow-override", "cond-drop-left", "mi-conflict", "mi-conflict-deep"]
+                 "narrow-override", "cond-drop-left", "mi-conflict", "mi-conflict-deep", "bool-sig"]
 
 
 def perturb(p: Prog, rng, prefer: str | None = None):
@@ -1176,6 +1203,8 @@ def perturb(p: Prog, rng, prefer: str | None = None):
                 side2 = [k for k in q.classes[b2].mro if k not in side1]
                 for k1 in side1:
                     for m, fd in q.classes[k1].methods:
+                        if m == BOOL_METH:
+                            continue
                         defined2 = any(m == m2 for k in q.classes[b2].mro for m2, _ in q.classes[k].methods)
                         own = any(m == m2 for m2, _ in cd.methods)
                         if not defined2 and side2 and not own:
@@ -1233,6 +1262,22 @@ def perturb(p: Prog, rng, prefer: str | None = None):
                 call = ("callM", ("var", 0), m, aa)
                 q.funcs.append(Func([(C(b),)], [], NONE, ("expr", call) if rt == NONE else ("expr", ("probe", 900001 + b, call))))
                 q.extra_calls.append((len(q.funcs) - 1, [g.closed((C(c),), None, 2)]))
+            return q, kind
+        if kind == "bool-sig":
+            # `__bool__` with a signature CPython cannot use for a truth test (mypy does not check it: F-C01-8)
+            sites = [(c, fd) for c, cd in enumerate(q.classes) for m, fd in cd.methods if m == BOOL_METH]
+            if not sites:
+                continue
+            c, fd = rng.choice(sites)
+            if rng.random() < 0.5:
+                fd.ret = INT
+                fd.body = ("ret", ("intLit", rng.choice([0, 1, 2])))
+            else:
+                fd.params = [INT]
+            g = Gen(rng)
+            g.h = Hier(q.classes)
+            q.funcs.append(Func([(C(c),)], [], INT, seq([("ite", ("var", 0), ("ret", ("intLit", 1)), ("pass",)), ("ret", ("intLit", 0))])))
+            q.extra_calls = [(len(q.funcs) - 1, [g.closed((C(c),), None, 2)])]
             return q, kind
         if kind == "narrow-override":
             # an overriding method takes less than the method it overrides (argument types are contravariant)
